@@ -191,3 +191,65 @@ def run(chk):
                 return (f'accept#{rname}', f'{name}: selector {sel!r} addresses nothing but is accepted by {rname}', {'selector': sel})
     chk.bounded('selectors: every path and near misses x every entry point', list(cases()), check, classify=lambda c: (c[0], c[1]),
                 bound='12 object shapes (+ every property the library fills in itself as a selector) (2.0 and 2.1; SDO, SRO, SCO with extension, language content and observed-data with one- and two-character dictionary keys, a custom type declared with extension_name) x every path x near misses x 10 entry points; near misses also at every position of a selector list')
+    aliased_family(chk)
+
+
+def aliased_family(chk):
+    """content in which one container INSTANCE occurs more than once (the same embedded object twice in a list, one dictionary or list given for two properties): every
+    path of the object is a valid selector, whichever occurrence it goes through -- at construction, through every marking function, after deepcopy / new_version"""
+    import stix2
+    from stix2 import markings as MK, v21
+    from stix2.exceptions import InvalidSelectorError
+    TLP = v21.TLP_RED.id
+
+    def builders():
+        def phases(**kw):
+            p = v21.KillChainPhase(kill_chain_name='k', phase_name='p')
+            return v21.Malware(name='m', is_family=False, kill_chain_phases=[p, p], **kw)
+        def refs(**kw):
+            er = {'source_name': 's', 'external_id': 'e'}
+            return v21.Malware(name='m', is_family=False, external_references=[er, er, dict(er)], **kw)
+        def refobjs(**kw):
+            er = v21.ExternalReference(source_name='s', external_id='e')
+            return v21.Identity(name='i', identity_class='individual', external_references=[er, er], **kw)
+        def custom_dict(**kw):
+            shared = {'first': 1, 'second': [1, 2], 'third': {'deep': 'x'}}
+            return v21.Identity(name='i', identity_class='individual', x_primary=shared, x_secondary=shared, allow_custom=True, **kw)
+        def custom_list(**kw):
+            lst = ['a', 'b']; inner = {'k': lst}
+            return v21.Identity(name='i', identity_class='individual', x_first=lst, x_second=lst, x_third=[inner, inner], allow_custom=True, **kw)
+        def plain(**kw):
+            shared = {'first': 1, 'second': [1, 2]}; ph = {'kill_chain_name': 'k', 'phase_name': 'p'}
+            d = {'type': 'malware', 'spec_version': '2.1', 'id': 'malware--' + G.UUID, 'created': G.T1, 'modified': G.T1, 'name': 'm', 'is_family': False, 'kill_chain_phases': [ph, ph],
+                 'x_primary': shared, 'x_secondary': shared}
+            d.update(kw); return d
+        return {'one KillChainPhase object twice': phases, 'one dictionary three times among external_references': refs, 'one ExternalReference object twice': refobjs,
+                'one dictionary for two custom properties': custom_dict, 'one list for two custom properties and nested': custom_list, 'plain dictionary with shared members': plain}
+
+    def cases():
+        for name, mk in builders().items():
+            o = mk()
+            d = json.loads(o.serialize()) if hasattr(o, 'serialize') else json.loads(json.dumps(o))
+            for p, v in selectors_of(d):
+                if SPEC_SELECTOR.match(p): yield (name, p)
+
+    def check(case):
+        name, sel = case
+        mk = builders()[name]
+        routes = {'built with the selector': lambda: mk(granular_markings=[{'marking_ref': TLP, 'selectors': [sel]}]),
+                  'add_markings': lambda: MK.add_markings(mk(), TLP, [sel]),
+                  'get_markings': lambda: MK.get_markings(mk(), [sel]),
+                  'is_marked': lambda: MK.is_marked(mk(), TLP, [sel]),
+                  'get_markings after add (inherited, descendants)': lambda: MK.get_markings(MK.add_markings(mk(), TLP, [sel]), [sel], inherited=True, descendants=True),
+                  'remove after add': lambda: MK.remove_markings(MK.add_markings(mk(), TLP, [sel]), TLP, [sel]),
+                  'deepcopy of the marked object': lambda: copy.deepcopy(MK.add_markings(mk(), TLP, [sel]))}
+        if 'plain' not in name:
+            routes['method'] = lambda: mk().get_markings([sel])
+            routes['new_version of the marked object'] = lambda: mk(granular_markings=[{'marking_ref': TLP, 'selectors': [sel]}]).new_version(name='n2')
+            routes['parse of the serialized marked object'] = lambda: stix2.parse(mk(granular_markings=[{'marking_ref': TLP, 'selectors': [sel]}]).serialize(), allow_custom=True)
+        for rname, fn in routes.items():
+            try: fn()
+            except InvalidSelectorError as ex:
+                return (f'reject#{rname}:shared container instance', f'{name}: existing path {sel!r} rejected by {rname}: {ex}', {'selector': sel})
+    chk.bounded('selectors into content that shares container instances', list(cases()), check, classify=lambda c: c,
+                bound='6 ways of sharing one container instance inside an object (embedded object twice, dictionary / list for two properties, nested) x every path x 10 entry points')
